@@ -341,6 +341,9 @@ func RunParent(spec *Spec, opt Options) int {
 	}
 
 	wall := time.Since(t0).Seconds()
+	if d := distinctCount(m); m.Evaluations < d {
+		m.Evaluations = d // cases counted as enumerated are evaluations too
+	}
 	if opt.Only == "" {
 		writeEvidence(m, opt, wall, len(fresh), sigs)
 	}
